@@ -133,6 +133,10 @@ pub fn gen_path(rng: &mut Rng, w: i32, h: i32, cfg: PathCfg) -> PathSpec {
         }
     } else {
         let nsub = 1 + rng.below(cfg.max_subpaths as u64) as u32;
+        if cfg.allow_no_moveto && rng.chance(1, 14) {
+            // a path may begin with anything, Close included
+            segs.push(Seg::Z);
+        }
         for si in 0..nsub {
             let nv = 2 + rng.below((cfg.max_verts - 1) as u64) as u32;
             let skip_move = cfg.allow_no_moveto && rng.chance(1, 10) && (si == 0 || rng.chance(1, 2));
@@ -215,7 +219,18 @@ pub fn gen_sparse_path(rng: &mut Rng, w: i32, h: i32) -> PathSpec {
 
 pub fn gen_transform(rng: &mut Rng, w: i32, h: i32, allow_singular: bool) -> Mat {
     let e = (w.max(h).max(1)) as f32;
-    let t = match rng.below(if allow_singular { 11 } else { 10 }) {
+    let t = match rng.below(if allow_singular { 12 } else { 11 }) {
+        10 => {
+            // a pure shear along one axis, often with a whole-pixel translation: the matrices
+            // that are closest to "integer translation" without being one
+            let k = rng.pick(&[0.5f32, -0.5, 0.25, 1., -1., 2.]) * if rng.chance(1, 3) { rng.f32_in(0.1, 1.) } else { 1. };
+            let (tx, ty) = if rng.chance(2, 3) { (rng.range(-4, 4) as f32, rng.range(-4, 4) as f32) } else { (rng.f32_in(-4., 4.), rng.f32_in(-4., 4.)) };
+            if rng.chance(1, 2) {
+                raqote::Transform::new(1., 0., k, 1., tx, ty)
+            } else {
+                raqote::Transform::new(1., k, 0., 1., tx, ty)
+            }
+        }
         0 | 1 => raqote::Transform::identity(),
         2 => raqote::Transform::translation(rng.range(-(e as i32), e as i32) as f32, rng.range(-(e as i32), e as i32) as f32),
         3 => raqote::Transform::translation(rng.f32_in(-e, e), rng.f32_in(-e, e)),
@@ -318,7 +333,12 @@ pub fn gen_source(rng: &mut Rng, w: i32, h: i32, weights: &[u32; 6]) -> SrcSpec 
         0 => gen_solid(rng),
         1 => {
             let img = gen_image(rng);
-            let xf = match rng.below(6) {
+            let xf = match rng.below(7) {
+                6 => {
+                    let k = rng.pick(&[0.5f32, -0.5, 0.25, 1., -1.]);
+                    let (tx, ty) = (rng.range(-3, 3) as f32, rng.range(-3, 3) as f32);
+                    mk::unmat(&if rng.chance(1, 2) { raqote::Transform::new(1., 0., k, 1., tx, ty) } else { raqote::Transform::new(1., k, 0., 1., tx, ty) })
+                }
                 0 => mat_identity(),
                 1 => mk::unmat(&raqote::Transform::translation(rng.range(-6, 6) as f32, rng.range(-6, 6) as f32)),
                 2 => mk::unmat(&raqote::Transform::translation(rng.f32_in(-6., 6.), rng.f32_in(-6., 6.))),
@@ -1041,4 +1061,61 @@ pub fn gen_scene(rng: &mut Rng, em: &mut Emit, surf: usize, cfg: &SceneCfg) {
         }
     }
     em.close_all();
+}
+
+/// multiplies every length of a drawing call by `f` (a power of two: exact)
+pub fn scale_geometry(op: &mut Op, f: f32) {
+    let sp = |p: &mut PathSpec| {
+        for s in p.segs.iter_mut() {
+            match s {
+                Seg::M(x, y) | Seg::L(x, y) => {
+                    x.0 *= f;
+                    y.0 *= f;
+                }
+                Seg::Q(a, b, c, d) => {
+                    a.0 *= f;
+                    b.0 *= f;
+                    c.0 *= f;
+                    d.0 *= f;
+                }
+                Seg::C(a, b, c, d, e, g) => {
+                    a.0 *= f;
+                    b.0 *= f;
+                    c.0 *= f;
+                    d.0 *= f;
+                    e.0 *= f;
+                    g.0 *= f;
+                }
+                Seg::Z => {}
+                Seg::Arc(x, y, r, _, _) => {
+                    x.0 *= f;
+                    y.0 *= f;
+                    r.0 *= f;
+                }
+                Seg::Rect(x, y, w, h) => {
+                    x.0 *= f;
+                    y.0 *= f;
+                    w.0 *= f;
+                    h.0 *= f;
+                }
+            }
+        }
+    };
+    match op {
+        Op::Fill { path, .. } => sp(path),
+        Op::Stroke { path, style, .. } => {
+            sp(path);
+            style.width.0 *= f;
+            style.dash_offset.0 *= f;
+            for d in style.dash_array.iter_mut() {
+                d.0 *= f;
+            }
+        }
+        Op::FillRect { rect, .. } => {
+            for v in rect.iter_mut() {
+                v.0 *= f;
+            }
+        }
+        _ => {}
+    }
 }
